@@ -35,6 +35,11 @@ pub fn scenario_c04(seed: u64, rep: &mut Report) {
 
 pub fn run_c04(p: &Params) -> Report {
     let mut rep = Report::new("C04");
+    if let Some(r) = &p.replay {
+        if super::sys::replay(r, &mut rep) {
+            return rep;
+        }
+    }
     if let Some(seed) = replay_seed(p) {
         scenario_c04(seed, &mut rep);
         return rep;
@@ -44,6 +49,8 @@ pub fn run_c04(p: &Params) -> Report {
         let seed = p.shard_seed(0x04_0000 + i);
         crate::util::guarded(&mut rep, seed, |rep| scenario_c04(seed, rep));
     }
+    // full stack: every call of the public API ends with a result or an error
+    super::sys::run_mixed(p, super::sys::Focus::C04, 0x5C04_0000, 1600, 100_000, &mut rep);
     rep
 }
 
